@@ -34,3 +34,24 @@ Section Shapes.
   Definition no_unit_prods (G : cfg Vr) : bool := forallb (fun p => negb (is_unit p)) (g_prods G).
   Definition same_prods (G H : cfg Vr) : bool := eqset (g_prods G) (g_prods H).
 End Shapes.
+
+(* ---- C10: semantic references for the grammar operations, on words ---- *)
+From PFL Require Export Model.CfgOps.
+Definition all_splits (w : list N) : list (list N * list N) :=
+  map (fun i => (firstn i w, skipn i w)) (seq 0 (S (length w))).
+Definition concat_ref (m1 m2 : list N -> bool) (w : list N) : bool :=
+  existsb (fun uv => m1 (fst uv) &&& m2 (snd uv)) (all_splits w).
+Fixpoint star_ref (fuel : nat) (m : list N -> bool) (w : list N) : bool :=
+  match w with
+  | [] => true
+  | _ => match fuel with
+         | O => false
+         | S f => existsb (fun uv => match fst uv with [] => false | _ => m (fst uv) &&& star_ref f m (snd uv) end) (all_splits w)
+         end
+  end.
+Definition plus_ref (m : list N -> bool) (w : list N) : bool :=
+  concat_ref m (star_ref (length w) m) w.
+
+(* first word on which [m] (a grammar's membership) differs from the reference predicate *)
+Definition pred_diff {V1} `{EqDec V1} (H : cfg V1) (ref : list N -> bool) (ws : list (list N)) : option (list N) :=
+  find (fun w => negb (Bool.eqb (cfg_member H w) (ref w))) ws.
